@@ -215,7 +215,7 @@ def stepOp (j : Json) : M Json := do
     bindVar (← reqM (getNat? j "dst")) res
     pure okJson
   | "rbin" => do
-    -- `k * a` = `a * k`;  `k / a` = `np.reciprocal(a / k)`
+    -- `k * a` = `a * k`;  `k / a` = `np.reciprocal(a / k)`;  Vector only: `k + v` = `v + k`, `k - v` = `-(v - k)`
     let name ← reqM (getStr? j "name")
     let aid ← getVar j "a"
     let k ← reqM ((getField? j "lhs").bind ArrV.fromJson?)
@@ -223,9 +223,14 @@ def stepOp (j : Json) : M Json := do
       match name with
       | "mul" => ArrV.binaryOp T .mul l k
       | "div" => do let q ← ArrV.binaryOp T .div l k; q.applyUn T .reciprocal
+      | "add" => ArrV.binaryOp T .add l k
+      | "sub" => do let q ← ArrV.binaryOp T .sub l k; q.applyUn T .neg
       | _ => .error .badOp
     let res ← match ← getObj aid with
-      | .arr _ => do allocArr (← liftR (f (← readArr aid)))
+      | .arr _ => do
+        -- Array defines no `__radd__` / `__rsub__`: Python raises TypeError
+        if name == "add" || name == "sub" then fail .typeErr
+        allocArr (← liftR (f (← readArr aid)))
       | .vec _ => do allocVec (← liftR ((← readVec aid).mapComps f))
       | _ => fail .typeErr
     bindVar (← reqM (getNat? j "dst")) res
